@@ -1449,14 +1449,15 @@ def corpus() -> list[tuple[str, dict, list]]:
     out.append(("augmented-int-str", {'classes': [], 'funcs': [(1, {'params': [(1, INT)], 'ret': INT, 'body': body})]},
                 [(1, [['i', 2]]), (1, [['b', 1]])]))
     # a narrowing entry (flag False) taken at `break` hides the assignment made earlier in the loop
+    optf = {'params': [(1, INT)], 'ret': OI, 'body': [('ret', ('if', ('bin', '<', ('I', 0), V(1)), ('N',), ('I', 1)))]}
     body = [('sif', ('inn', V(1)),
              [('de', 2, INT, ('I', 0)),
-              ('wh', ('bin', '<', V(2), ('I', 2)), [('as', 2, ('bin', '+', V(2), ('I', 1))), ('as', 1, ('N',)),
+              ('wh', ('bin', '<', V(2), ('I', 2)), [('as', 2, ('bin', '+', V(2), ('I', 1))), ('as', 1, ('cf', 1, [V(2)])),
                                                      ('sif', ('isn', V(1)), [('brk',)], [])], []),
               ('ex', ('rev', V(1))), ('ret', ('bin', '+', V(1), ('I', 1)))], []),
             ('ret', ('I', 0))]
-    out.append(("break-in-narrowing-frame", {'classes': [], 'funcs': [(1, {'params': [(1, OI)], 'ret': INT, 'body': body})]},
-                [(1, [['i', 4]]), (1, [['n']])]))
+    out.append(("break-in-narrowing-frame", {'classes': [], 'funcs': [(1, optf), (2, {'params': [(1, OI)], 'ret': INT, 'body': body})]},
+                [(2, [['i', 4]]), (2, [['n']])]))
     # break out of a try block whose finally re-assigns the narrowed local
     body = [('de', 2, OI, ('N',)), ('as', 2, ('I', 1)),
             ('wh', ('bin', '<', V(1), ('I', 3)), [('as', 1, ('bin', '+', V(1), ('I', 1))), ('fin', [('brk',)], [('as', 2, ('N',))])], []),
@@ -1882,7 +1883,12 @@ def gen_programs(ctx: vlib.Ctx, n: int, stream: str) -> list[tuple[str, dict, li
         for j in range(2):
             r = perturb(p, vlib.Rng(ctx.seed, f"{stream}/{i}/mut{j}"))
             if r is not None:
-                out.append((f"{stream}{i}~{r[0]}{j}", r[1], calls))
+                # the recorded argument values must still be members of the (possibly changed) parameter types
+                fds = dict(r[1]['funcs'])
+                ok_calls = [(f, vs) for f, vs in calls
+                            if f in fds and len(vs) == len(fds[f]['params'])
+                            and all(member(r[1], v, t) for v, (_, t) in zip(vs, fds[f]['params']))]
+                out.append((f"{stream}{i}~{r[0]}{j}", r[1], ok_calls))
     return out
 
 
